@@ -414,6 +414,55 @@ impl TrackerEngine {
     }
 }
 
+fn scenes_of(c: &TrackerCase) -> BTreeSet<u64> {
+    c.ops
+        .iter()
+        .flat_map(|o| match o {
+            TOp::Predict { scene, .. } => vec![*scene],
+            TOp::Batch { scenes, .. } => scenes.iter().map(|s| s.0).collect(),
+            _ => vec![],
+        })
+        .collect()
+}
+
+/// projection of a history onto one scene (C04)
+fn project(base: &TrackerCase, s: u64, var: &Value, upto: usize) -> TrackerCase {
+    let mut c = base.clone();
+    c.cfg.shards = var["shards"].as_u64().unwrap_or(1) as usize;
+    let mut ops = vec![];
+    for (i, op) in base.ops.iter().enumerate() {
+        if i >= upto {
+            break;
+        }
+        let o2 = match op {
+            TOp::Predict { scene, .. } if *scene == s => Some(op.clone()),
+            TOp::Predict { .. } => None,
+            TOp::Batch { scenes, consumer } => {
+                let f: Vec<_> = scenes.iter().filter(|x| x.0 == s).cloned().collect();
+                if f.is_empty() {
+                    None
+                } else {
+                    Some(TOp::Batch { scenes: f, consumer: *consumer })
+                }
+            }
+            TOp::Skip { scene, .. } if *scene == s => Some(op.clone()),
+            TOp::Skip { .. } => None,
+            TOp::Idle { scene } if *scene == s => Some(op.clone()),
+            TOp::Idle { .. } => None,
+            TOp::Epoch { scene } if *scene == s => Some(op.clone()),
+            TOp::Epoch { .. } => None,
+            TOp::Wasted => Some(op.clone()),
+            TOp::SetAutoWaste(_) => Some(TOp::SetAutoWaste(var["periodicity"].as_u64().unwrap_or(100) as usize)),
+            TOp::Stats | TOp::ClearWasted => None,
+        };
+        if let Some(o2) = o2 {
+            ops.push(o2);
+        }
+    }
+    c.ops = ops;
+    c
+}
+
 fn report(prop: &str, clause: &str, op: &str, detail: &str, msg: String) -> Violation {
     Violation::new(prop, clause, op, detail, msg)
 }
@@ -463,7 +512,30 @@ impl Engine for TrackerEngine {
         }
         let (h0, abort) = exec_tracker(&mut out, &plan, 0, prop == "C05", &base, true);
         if !abort.is_empty() {
+            let msg0 = abort[0].msg.clone();
             out.violation = own(&mut out, prop, abort);
+            if prop == "C04" && out.violation.is_none() {
+                // the interleaved run died: scenes interfere if every scene on its own runs fine
+                let var = variants.first().cloned().unwrap_or(json!({}));
+                let scenes = scenes_of(&base);
+                if scenes.len() >= 2 {
+                    let mut all_fine = true;
+                    for (si, s) in scenes.iter().enumerate() {
+                        let c = project(&base, *s, &var, base.ops.len());
+                        if c.ops.is_empty() {
+                            continue;
+                        }
+                        let (_, a) = exec_tracker(&mut out, &plan, 1 + si, false, &c, false);
+                        if !a.is_empty() {
+                            all_fine = false;
+                        }
+                    }
+                    if all_fine {
+                        out.violation = Some(report("C04", "scene-interference", "interleaved-run", "aborts-while-single-scene-runs-complete",
+                            format!("the interleaved multi-scene run aborted ({msg0}) although every single-scene projection runs to completion")));
+                    }
+                }
+            }
             return out;
         }
         let Some(h0) = h0 else { return out };
@@ -555,51 +627,12 @@ impl Engine for TrackerEngine {
             }
             "C04" => {
                 let var = variants.first().cloned().unwrap_or(json!({}));
-                let scenes: BTreeSet<u64> = base
-                    .ops
-                    .iter()
-                    .flat_map(|o| match o {
-                        TOp::Predict { scene, .. } => vec![*scene],
-                        TOp::Batch { scenes, .. } => scenes.iter().map(|s| s.0).collect(),
-                        _ => vec![],
-                    })
-                    .collect();
+                let scenes = scenes_of(&base);
                 if scenes.len() < 2 {
                     return out;
                 }
                 for (si, s) in scenes.iter().enumerate() {
-                    // projection of the history onto scene s
-                    let mut c = base.clone();
-                    c.cfg.shards = var["shards"].as_u64().unwrap_or(1) as usize;
-                    let mut keep_idx = vec![];
-                    let mut ops = vec![];
-                    for (i, op) in base.ops.iter().enumerate() {
-                        if i >= upto {
-                            break;
-                        }
-                        let o2 = match op {
-                            TOp::Predict { scene, .. } if scene == s => Some(op.clone()),
-                            TOp::Predict { .. } => None,
-                            TOp::Batch { scenes, consumer } => {
-                                let f: Vec<_> = scenes.iter().filter(|x| x.0 == *s).cloned().collect();
-                                if f.is_empty() { None } else { Some(TOp::Batch { scenes: f, consumer: *consumer }) }
-                            }
-                            TOp::Skip { scene, .. } if scene == s => Some(op.clone()),
-                            TOp::Skip { .. } => None,
-                            TOp::Idle { scene } if scene == s => Some(op.clone()),
-                            TOp::Idle { .. } => None,
-                            TOp::Epoch { scene } if scene == s => Some(op.clone()),
-                            TOp::Epoch { .. } => None,
-                            TOp::Wasted => Some(op.clone()),
-                            TOp::SetAutoWaste(_) => Some(TOp::SetAutoWaste(var["periodicity"].as_u64().unwrap_or(100) as usize)),
-                            TOp::Stats | TOp::ClearWasted => None,
-                        };
-                        if let Some(o2) = o2 {
-                            ops.push(o2);
-                            keep_idx.push(i);
-                        }
-                    }
-                    c.ops = ops;
+                    let c = project(&base, *s, &var, upto);
                     if c.ops.is_empty() {
                         continue;
                     }
